@@ -239,6 +239,14 @@ def run_histories(hs, tag, timeout_ms=10000, shards=16):
     return [r for rs in res for r in rs]
 
 # ---------------------------------------------------------------- known findings
+def level_text(pid):
+    """what is proved for this property and what is only judged (from MANIFEST.json, written by tools/mkmanifest.py)"""
+    try:
+        m = json.load(open(os.path.join(ROOT, "MANIFEST.json")))
+        return [c["level_claimed"]["text"] for c in m["checks"] if c["property_id"] == pid][0]
+    except Exception:
+        return ""
+
 def load_known():
     p = os.path.join(ROOT, "known_findings.json")
     return json.load(open(p)) if os.path.exists(p) else {"findings": [], "fixed": []}
@@ -386,7 +394,7 @@ def check(pid, tier, seed):
         "broken": [list(p) for p in problems],
         "samples": sample,
         "translate": tlog,
-        "partial": plan.get("partial", ""),
+        "proved_and_not_proved": level_text(pid),
     }
     ev["assumptions"] = plans.ASSUMPTIONS
     ev["violations"] = len(violations) + (1 if exit_code and not violations else 0)
